@@ -27,7 +27,7 @@ def suite():
     base = json.load(open("/root/.vp/BASELINE.json")); stable = set(base["stable_pass"])
     out = tempfile.mktemp(suffix=".xml")
     env = dict(os.environ); env.pop("DENDROPY_VERIF", None); env.pop("PYTHONPATH", None)
-    sh("/venv/bin/python -m pytest -q -p no:cacheprovider --timeout=900 --continue-on-collection-errors -n 6 --junitxml=%s" % out, cwd=WT, env=env)
+    sh("/venv/bin/python -m pytest -q -p no:cacheprovider --timeout=900 --continue-on-collection-errors -n 5 --junitxml=%s" % out, cwd=WT, env=env)
     passed = set()
     for tc in ET.parse(out).getroot().iter("testcase"):
         if not list(tc):
